@@ -1280,7 +1280,7 @@ pub struct Fault {
 pub const BINDING_FAULTS: &[&str] = &[
     "unknown-property", "unknown-signal", "ill-typed-constant", "ill-typed-dynamic", "unsupported-expression", "dynamic-to-read-only",
     "unknown-attached-type", "no-attached-class", "unused-attached", "handler-on-non-signal", "handler-as-map", "invalid-color", "duplicate-property",
-    "duplicate-attached",
+    "duplicate-attached", "dynamic-on-pseudo-object", "nested-dynamic-in-group",
 ];
 pub const OBJECT_FAULTS: &[&str] = &["unknown-object-type", "invalid-object-type"];
 
@@ -1336,6 +1336,38 @@ pub fn plant_fault(ch: &mut Chooser, root: &mut Obj, allowed: &[&'static str]) -
             let (n, v) = *ch.pick(&[("width", "windowTitle.isEmpty() ? 1 : 2"), ("height", "windowTitle.isEmpty() ? 1 : 2"), ("x", "minimumWidth"), ("isActiveWindow", "true")]);
             free(root, &w, n).then(|| push(root, &w, n, v))
         }
+        // a dynamic binding on a spacer property: this pseudo object exists only in the .ui,
+        // so the binding can neither be embedded nor generated and must be diagnosed (generate and reject mode)
+        "dynamic-on-pseudo-object" => {
+            let srcs: Vec<String> = root.flat().iter().filter(|(_, o)| kind_of(&o.class) == Kind::Widget).filter_map(|(_, o)| o.id.clone()).collect();
+            // (layouts are real objects: a dynamic binding on e.g. spacing is supported)
+            let pseudo: Vec<&(Vec<usize>, String, bool)> = flat.iter().filter(|(_, c, _)| c == "QSpacerItem").collect();
+            if srcs.is_empty() || pseudo.is_empty() {
+                return None;
+            }
+            let (h, class, _) = (*ch.pick(&pseudo)).clone();
+            let src = ch.pick(&srcs).clone();
+            let _ = class;
+            let (n, v) = ("orientation", format!("{src}.windowTitle.isEmpty() ? Qt.Horizontal : Qt.Vertical"));
+            free(root, &h, n).then(|| push(root, &h, n, &v))
+        }
+        // two dynamic members in an object-valued group (the header view of an item view): not supported,
+        // one error for the group, reported at one of the members
+        "nested-dynamic-in-group" => {
+            let srcs: Vec<String> = root.flat().iter().filter(|(_, o)| kind_of(&o.class) == Kind::Widget).filter_map(|(_, o)| o.id.clone()).collect();
+            let views: Vec<&&(Vec<usize>, String, bool)> = widgets.iter().filter(|(_, c, _)| c == "QTreeView" || c == "QTableView").collect();
+            if srcs.is_empty() || views.is_empty() {
+                return None;
+            }
+            let (w, class, _) = (**ch.pick(&views)).clone();
+            let group = if class == "QTreeView" { "header" } else { *ch.pick(&["horizontalHeader", "verticalHeader"]) };
+            if !free(root, &w, group) {
+                return None;
+            }
+            let src = ch.pick(&srcs).clone();
+            root.at_mut(&w).binds.push(Bind::new(format!("{group}.defaultSectionSize"), format!("{src}.windowTitle.isEmpty() ? 10 : 20")));
+            Some(push(root, &w, &format!("{group}.stretchLastSection"), &format!("{src}.windowTitle.isEmpty()")))
+        }
         "unknown-attached-type" => {
             let h = (*ch.pick(&hosts)).0.clone();
             Some(push(root, &h, *ch.pick(&["Bogus.row", "QBogusLayout.column", "Keys.onPressed"].iter().filter(|s| !s.contains("on")).copied().collect::<Vec<_>>()), "1"))
@@ -1384,7 +1416,14 @@ pub fn plant_fault(ch: &mut Chooser, root: &mut Obj, allowed: &[&'static str]) -
             free(root, &w, "palette").then(|| push(root, &w, "palette.window", *ch.pick(&["\"#wtf\"", "\"notacolor\"", "\"#12345\"", "\"\""])))
         }
         "duplicate-property" => {
-            let w = (*ch.pick(&widgets)).0.clone();
+            // half of the time on an object that also has attached bindings (its place in a layout must survive)
+            let attached: Vec<&&(Vec<usize>, String, bool)> = widgets.iter().filter(|(p, _, _)| root.at(p).binds.iter().any(|b| b.path == "QLayout.row" || b.path == "QLayout.column")).collect();
+            let w = if !attached.is_empty() && ch.chance(2, 3) {
+                ch.label("duplicate-property-on-object-with-explicit-cell");
+                (**ch.pick(&attached)).0.clone()
+            } else {
+                (*ch.pick(&widgets)).0.clone()
+            };
             let n = *ch.pick(&["toolTip", "statusTip", "whatsThis"]);
             if !free(root, &w, n) {
                 return None;
